@@ -39,6 +39,9 @@ def cases(res):
     add(3, 128, 128, "extreme", {"qp": 0, "enable_tpl_la": 0})
     add(3, 128, 128, "noise", {"qp": 63})
     add(3, 136, 72, "noise", {"qp": 0}, bits=10)
+    # incompressible pictures large enough to outgrow every initial bitstream / entropy-coder buffer (> 64 KB per tile)
+    add(3, 352, 288, "noise", {"qp": 1})
+    add(2, 384, 256, "noise", {"qp": 20, "tile_columns": 1}, bits=10)
     # tools: tiles, superres, film grain, screen content, 10 bit, 16-bit pipeline, rate control, presets
     add(5, 256, 192, "motion", {"tile_columns": 2, "tile_rows": 1})
     add(5, 192, 256, "edges", {"tile_columns": 1, "tile_rows": 2, "logical_processors": 8})
